@@ -553,20 +553,25 @@ def check_consumers(chk):
     else:
         chk.bad('C11.U', lib, lf.pyname, norm(rets[0].value) if rets else 'no return', 'systemCompare must return value_compare(left, right) with the arguments in order', node=rets[0] if rets else None)
 
-    # arrayIndexOf / arrayLastIndexOf: equality by compare == 0 on (array[ix], value)
-    for name in ('arrayIndexOf', 'arrayLastIndexOf'):
-        lf = libfuncs.get(name)
-        if lf is None:
-            raise Unrecognised('C11.U', f'{name} not registered', lib.rel)
-        cs = calls_in(lf.func, 'value_compare')
-        if len(cs) != 1:
-            chk.bad('C11.U', lib, lf.pyname, f'{len(cs)} value_compare calls', f'{name} must test each element with value_compare(element, value) == 0')
-            continue
-        par = getattr(cs[0], '_parent', None)
-        if isinstance(par, ast.Compare) and len(par.ops) == 1 and isinstance(par.ops[0], ast.Eq) and norm(par.comparators[0]) == '0' and par.left is cs[0]:
-            chk.ok('C11.U', f'{name}: {norm(par)}')
-        else:
-            chk.bad('C11.U', lib, lf.pyname, norm(par if par is not None else cs[0]), f'{name} must match elements by value_compare(...) == 0', node=cs[0])
+    # arrayIndexOf / arrayLastIndexOf: matching by the value comparison, decided by abstract execution (E6l, the index-function runs shared with C15.B)
+    from .. import libsim
+    cache = getattr(chk, '_index_sim', None)
+    if cache is None:
+        try:
+            cache = chk._index_sim = (libfuncs,) + libsim.run_index_functions(chk.repo, libfuncs, 'C11.U')
+        except Unrecognised as exc:
+            chk.unrec('C11.U', f'arrayIndexOf / arrayLastIndexOf: abstract execution not possible: {exc.what}', exc.where)
+            cache = None
+    if cache is not None:
+        _lfs, _n, per_fn, problems = cache
+        for name in ('arrayIndexOf', 'arrayLastIndexOf'):
+            mine = [p for p in problems if p[0] == name and p[1] in ('host', 'result')]
+            lf = libfuncs.get(name)
+            if mine:
+                chk.bad('C11.U', lib, lf.pyname if lf else name, f'{name}: {mine[0][2][:100]}', f'abstract execution of {name}: {mine[0][2]} ({len(mine)} of {per_fn.get(name, 0)} runs deviate)', node=lf.func if lf else None)
+            else:
+                chk.ok('C11.U', f'{name}: {per_fn.get(name, 0)} abstract calls - elements are matched by value_compare(element, value) == 0 (opaque values: a host == would be reported), '
+                       f'first / last match from the start index', count=per_fn.get(name, 1))
 
     # mathMax / mathMin
     for name, cls, sym in (('mathMax', ast.Gt, '>'), ('mathMin', ast.Lt, '<')):
@@ -575,16 +580,34 @@ def check_consumers(chk):
             raise Unrecognised('C11.U', f'{name} not registered', lib.rel)
         _check_minmax(chk, lib, lf, name, cls, sym)
 
-    # arraySort default comparator + no host ordering in consumers
-    lf = libfuncs.get('arraySort')
-    if lf is None:
-        raise Unrecognised('C11.U', 'arraySort not registered', lib.rel)
-    _check_sorts(chk, lib, lf.pyname, lf.func, compare_names={'value_compare'}, allow_param_fn=True)
-
-    # dataSort -> data.sort_data / _sort_data_fn
+    # arraySort and dataSort: stable sort under the value comparison (or the script comparison function), decided by abstract execution (E6l)
     dmod = chk.repo.module('data')
-    sd = dmod.func('sort_data', 'C11.U')
-    _check_sorts(chk, dmod, 'sort_data', sd, compare_names={'_sort_data_fn'}, allow_param_fn=False)
+    try:
+        counts, sproblems = libsim.run_sort_functions(chk.repo, libfuncs, 'C11.U')
+        decided = True
+    except Unrecognised as exc:
+        chk.unrec('C11.U', f'arraySort / sort_data: abstract execution not possible: {exc.what}', exc.where)
+        decided = False
+    if decided:
+        for fname, mod_, pyname in (('arraySort', lib, libfuncs['arraySort'].pyname if 'arraySort' in libfuncs else 'arraySort'), ('sort_data', dmod, 'sort_data')):
+            mine = [p for p in sproblems if p[0] == fname]
+            if mine:
+                kinds = {}
+                for p_ in mine:
+                    kinds.setdefault(p_[1], []).append(p_[2])
+                for kind, msgs in kinds.items():
+                    chk.bad('C11.U', mod_, pyname, f'{fname} [{kind}]: {msgs[0][:100]}', f'abstract execution: {msgs[0]} ({len(msgs)} of {counts.get(fname, 0)} runs deviate this way). '
+                            'Sorting script values must use the value comparison (or the script comparison function, whose result may be any number) and be stable', node=mod_.funcs.get(pyname))
+            else:
+                chk.ok('C11.U', f'{fname}: {counts.get(fname, 0)} abstract calls - the result is the stable sort under value_compare'
+                       + (' / under a script comparison function returning int or float' if fname == 'arraySort' else ' per key, reversed for descending keys') + ', in place; no host ordering', count=counts.get(fname, 1))
+    else:
+        lf = libfuncs.get('arraySort')
+        if lf is None:
+            raise Unrecognised('C11.U', 'arraySort not registered', lib.rel)
+        _check_sorts(chk, lib, lf.pyname, lf.func, compare_names={'value_compare'}, allow_param_fn=True)
+        sd = dmod.func('sort_data', 'C11.U')
+        _check_sorts(chk, dmod, 'sort_data', sd, compare_names={'_sort_data_fn'}, allow_param_fn=False)
     fn = dmod.func('_sort_data_fn', 'C11.U')
     # abstract execution (E6l) of the row comparator over opaque values a < b < c (null lowest): sign of the first differing key, flipped for descending keys
     from .. import libsim
